@@ -24,6 +24,9 @@ func vStubs() map[string]interface{} {
 	for k, v := range vFsStubs() {
 		m[k] = v
 	}
+	for k, v := range vFileStubs() {
+		m[k] = v
+	}
 	return m
 }
 
